@@ -12,6 +12,7 @@ import (
 	"strconv"
 	"strings"
 	"time"
+	"unicode"
 
 	"github.com/go-text/typesetting/di"
 	"github.com/go-text/typesetting/font"
@@ -319,6 +320,30 @@ func shapeMain(args []string) error {
 						t[i] = own[rng.Intn(len(own))]
 					}
 					texts = append(texts, t)
+				}
+				// very long clusters: a base followed by hundreds of marks / joiners (the syllable machinery of the
+				// complex shapers keeps one-byte positions); lengths on both sides of 127, 255 and 511
+				{
+					long := func(base rune, filler rune, n int, tail ...rune) []rune {
+						t := []rune{base}
+						for i := 0; i < n; i++ {
+							t = append(t, filler)
+						}
+						return append(t, tail...)
+					}
+					var indic rune
+					for _, r := range own {
+						if r >= 0x0905 && r <= 0x0D7F && unicode.IsLetter(r) {
+							indic = r
+							break
+						}
+					}
+					n := []int{120, 130, 250, 260, 300, 520}[rng.Intn(6)]
+					if indic != 0 {
+						texts = append(texts, long(indic, 0x0951, 300), long(indic, 0x0951, n), long(indic, 0x200C, n-20, indic))
+					} else if len(own) > 0 && rng.Intn(4) == 0 {
+						texts = append(texts, long(own[rng.Intn(len(own))], 0x0301, n))
+					}
 				}
 				jobs = append(jobs, func(enc *json.Encoder) {
 					hf := harfbuzz.NewFont(face)
